@@ -164,6 +164,8 @@ def run_check(prop, tier, seed, replay=None):
     env = child_env()
     env.update(getattr(mod, 'ENV', {}))
     procs = []
+    hashseeds = {}
+    replay_hashseed = w.get('hashseed') if replay else None
     pending = list(enumerate(shards))
     running = {}
     records = []
@@ -174,7 +176,14 @@ def run_check(prop, tier, seed, replay=None):
         op = os.path.join(scratch, 'out%d.jsonl' % i)
         with open(sp, 'w') as f:
             json.dump(sh, f)
-        p = subprocess.Popen([PYTHON, '-m', 'vf.cli', '--shard', prop, sp, op], env=env,
+        # Shards run under different string-hash seeds (0..3 by shard number; a replay runs under the seed of the shard that
+        # found the case): set/dict-of-string iteration orders the code under test may depend on are then not all the same.
+        env_i = dict(env)
+        if 'PYTHONHASHSEED' not in getattr(mod, 'ENV', {}):
+            env_i['PYTHONHASHSEED'] = str(replay_hashseed if replay_hashseed is not None else
+                                          os.environ.get('VERIF_HASHSEED', i % 4))
+        hashseeds[i] = env_i['PYTHONHASHSEED']
+        p = subprocess.Popen([PYTHON, '-m', 'vf.cli', '--shard', prop, sp, op], env=env_i,
                              cwd=VERIF, stdout=subprocess.DEVNULL, stderr=open(op + '.err', 'w'))
         running[i] = (p, op, time.time(), len(sh))
 
@@ -200,7 +209,9 @@ def run_check(prop, tier, seed, replay=None):
                     with open(op) as f:
                         for line in f:
                             try:
-                                records.append(json.loads(line))
+                                rec_ = json.loads(line)
+                                rec_['hashseed'] = hashseeds.get(i)
+                                records.append(rec_)
                                 got += 1
                             except ValueError:
                                 pass
@@ -257,6 +268,7 @@ def finish(mod, prop, tier, seed, records, shard_failures, planned, wall, replay
             for sv in subs:
                 sv = dict(sv)
                 sv.setdefault('params', r.get('params'))
+                sv.setdefault('hashseed', r.get('hashseed'))
                 key = sv.get('key', 'unclassified')
                 if key in known_keys:
                     known_seen.setdefault(key, []).append(sv)
@@ -287,7 +299,7 @@ def finish(mod, prop, tier, seed, records, shard_failures, planned, wall, replay
         path = os.path.join(VERIF, 'replays', '%s-%s.json' % (prop, h([r.get('params'), key])))
         with open(path, 'w') as f:
             json.dump({'property': prop, 'params': r.get('params'), 'key': key, 'what': r.get('what'),
-                       'witness': r.get('witness'), 'seed': seed, 'tier': tier}, f, indent=1, default=str)
+                       'witness': r.get('witness'), 'seed': seed, 'tier': tier, 'hashseed': r.get('hashseed')}, f, indent=1, default=str)
         replay_paths.append(path)
         if len(replay_paths) <= 10:
             out_lines.append('VIOLATION property=%s replay=%s  # %s: %s' % (prop, path, key, r.get('what')))
